@@ -4,6 +4,7 @@ import MpireModel.Model.Args
 import MpireModel.Model.Watch
 import MpireModel.Model.Progress
 import MpireModel.Model.BarHandshake
+import MpireModel.Model.ResultIter
 import MpireModel.Model.Exception
 import MpireModel.Model.History
 import MpireModel.Model.ApplyHandover
@@ -175,6 +176,28 @@ def handleHShake (fs : List (String × String)) : Option String := do
     let s' := step acc.1 op
     (s', if op == .pass then acc.2 ++ [showS s'] else acc.2)) (init tot, [])
   some ("ok " ++ ";".intercalate outs ++ s!" go={if callerGoesOn s then 1 else 0}")
+
+/-! result iterator -/
+open Mpire.ResultIter in
+def parseRIOp (s : String) : Option Op :=
+  if s == "n" then some (.next false) else if s == "b" then some (.next true) else if s == "t" then some .timeout
+  else if s.startsWith "O" then (s.drop 1).toString.toNat?.map .setOk
+  else if s.startsWith "R" then (s.drop 1).toString.toNat?.map .setErr
+  else if s.startsWith "L" then (s.drop 1).toString.toNat?.map .setLength
+  else none
+
+open Mpire.ResultIter in
+/-- `riter n=<-|k> ops=<O5,R1,L3,n,b,t,…>` → one output per op, then the final counters -/
+def handleRIter (fs : List (String × String)) : Option String := do
+  let n ← getOptNat fs "n"
+  let os := (← get fs "ops")
+  let ops ← if os == "-" || os == "" then some [] else (os.splitOn ",").mapM parseRIOp
+  let (s, outs) := run (init n) ops
+  let sh : Out → String
+    | .none => "-" | .value v => s!"v{v}" | .stop => "stop" | .empty => "empty" | .waits => "waits"
+    | .valueError => "valueerror" | .bad => "bad"
+  some ("ok " ++ ",".intercalate (outs.map sh) ++
+    s!" items={showNats s.items} rec={s.nReceived} ret={s.nReturned} len={match s.nTasks with | some k => toString k | none => "-"} exc={match s.exc with | some k => toString k | none => "-"}")
 
 /-! exception -/
 open Mpire.Exc in
